@@ -91,3 +91,70 @@ package helpers
 //@   ensures [ri]  RI_Manager(m)
 //@   ensures [len] len(m.items) == old(len(m.items)) || len(m.items) == old(len(m.items)) - 1
 //@   loop 1: invariant 0 <= rangeindex + 1 && rangeindex + 1 <= len(m.items) && RI_Manager(m) && len(m.items) == old(len(m.items))
+
+// ---------------------------------------------------------------- wg_counter.go
+// Invariant of a batch counter: count equals the WaitGroup counter (both are the number of items not yet finished).
+//@ pred RI_Wgc(pt *WgCounter) := pt != nil && pt.count == pt.wg && pt.count >= 0
+
+//@ func NewWgCounter
+//@   props C05 C08
+//@   requires 0 <= bufferSize && bufferSize <= MaxUint32
+//@   modifies $alloc, result.count, result.wg
+//@   ensures [fresh] $fresh(result) && result.count == bufferSize && RI_Wgc(result)
+
+//@ func WgCounter.Count
+//@   props C08 C05
+//@   ensures result == pt.count
+
+//@ func WgCounter.Done
+//@   props C05 C08
+//@   requires RI_Wgc(pt)
+//@   modifies pt.count, pt.wg, $wgdone[0]
+//@   ensures [zero] old(pt.count) == 0 ==> pt.count == 0 && pt.wg == old(pt.wg)
+//@   ensures [dec]  old(pt.count) > 0 ==> pt.count == old(pt.count) - 1
+//@   ensures [ri]   RI_Wgc(pt)
+
+//@ func WgCounter.Wait
+//@   props C05 C08
+//@   requires RI_Wgc(pt)
+//@   modifies pt.wg
+//@   ensures pt.wg == 0
+
+// ---------------------------------------------------------------- response.go
+//@ func NewResponse
+//@   props C05 C07 C08
+//@   requires cap >= 0
+//@   modifies $alloc, result.ch, result.res, $chan(result.ch), $open(result.ch), key CH:cap
+//@   ensures [fresh] $fresh(result) && result.ch != nil && $fresh(result.ch)
+//@   ensures [chan]  $open(result.ch) && $cap(result.ch) == cap && $sent(result.ch) == 0 && $rcvd(result.ch) == 0
+
+//@ func Response.Read
+//@   props C08
+//@   ensures result == rc.ch
+
+// Send stores the value for later readers and offers it on the channel.
+//@ func Response.Send
+//@   props C05 C07 C08
+//@   requires c.ch != nil && $open(c.ch)
+//@   modifies c.res, $chan(c.ch)
+//@   ensures [stored] c.res == res
+//@   ensures [sent]   $sent(c.ch) == old($sent(c.ch)) + 1 && $chval(c.ch, old($sent(c.ch))) == res && $open(c.ch)
+
+// Response returns a buffered value if there is one; on a closed, drained channel it returns the stored value.
+//@ func Response.Response
+//@   props C05 C07
+//@   requires c.ch != nil
+//@   modifies $chan(c.ch), $open(c.ch)
+//@   ensures [buffered] old($rcvd(c.ch)) < old($sent(c.ch)) ==> result == $chval(c.ch, old($rcvd(c.ch))) && $rcvd(c.ch) == old($rcvd(c.ch)) + 1
+//@   ensures [closed]   old($rcvd(c.ch)) == old($sent(c.ch)) && !old($open(c.ch)) ==> result == c.res && $rcvd(c.ch) == old($rcvd(c.ch))
+
+//@ func Response.Close
+//@   props C05 C07 C08
+//@   requires rc.ch != nil && $open(rc.ch)
+//@   modifies $open(rc.ch)
+//@   ensures [closed] result == nil && !$open(rc.ch)
+
+//@ func Response.Drain
+//@   props C05
+//@   modifies $spawned["helpers.Response.Drain$1"], $alloc
+//@   ensures $spawned["helpers.Response.Drain$1"] == old($spawned["helpers.Response.Drain$1"]) + 1
